@@ -284,6 +284,18 @@ def random_ops(rec: Recorder, rng: random.Random, sizeB: int, nops: int, *, unit
         return n
 
     for _ in range(nops):
+        if sectors_fn is not None and rng.random() < 0.08:
+            # a request for sectors that do not exist (beyond the end, or running over it): whatever the reader answers - an error,
+            # a short result - is not recorded; what it is asked next must not be affected
+            nsec = sizeB // ssize
+            try:
+                sectors_fn(nsec + rng.choice([0, 1, 7, rng.randrange(0, 4096), 1 << 20]), rng.randrange(1, 16))
+            except Exception:  # noqa: BLE001
+                pass
+            try:
+                sectors_fn(max(0, nsec - 2), 8)
+            except Exception:  # noqa: BLE001
+                pass
         r = rng.random()
         if absolute:
             rec.seek(pick_off(), 0)
